@@ -74,7 +74,7 @@ def main():
                 continue
             meta = json.load(open(mp))
             res = evaluate(meta["preserves_property"], os.path.join(HERE, "benign", n, "patch.diff"), os.path.join(HERE, "benign", n, "verify.py"), "quick",
-                           tuple(meta.get("also_check", [])))
+                           () if os.environ.get("BENIGN_OWN") else tuple(meta.get("also_check", [])))
             meta["verdict"] = res
             json.dump(meta, open(mp, "w"), indent=1)
             tot += 1
